@@ -35,61 +35,103 @@ Fixpoint wfield_for (names_ : list str) (wfs : list (fmeta * schema)) : option s
   | n :: r => match wfield_named n wfs with Some s => Some s | None => wfield_for r wfs end
   end.
 
+(* the loops of the union and record arms, parameterised by the recursive call *)
+(* one writer branch against every reader branch: is there a fully / a partially compatible one *)
+Fixpoint scan_readers (cr : schema -> res compat) (l : list schema) (full part : bool) : res (bool * bool) :=
+  match l with
+  | [] => Ok (full, part)
+  | rb :: r =>
+    match cr rb with
+    | Ok CFull => scan_readers cr r true part
+    | Ok CPartial => scan_readers cr r full true
+    | Err => scan_readers cr r full part
+    | Panic => Panic | OutOfFuel => OutOfFuel
+    end
+  end.
+
+Definition verdict (all any : bool) : res compat :=
+  if all then Ok CFull else if any then Ok CPartial else Err.
+
+(* union writer, union reader *)
+Fixpoint union_union (per : schema -> res (bool * bool)) (l : list schema) (all any : bool) : res compat :=
+  match l with
+  | [] => verdict all any
+  | wb :: r => do fp <- per wb; union_union per r (all && fst fp) (any || fst fp || snd fp)
+  end.
+
+(* union writer, non-union reader *)
+Fixpoint union_writer (cr : schema -> res compat) (l : list schema) (all any : bool) : res compat :=
+  match l with
+  | [] => verdict all any
+  | wb :: r =>
+    match cr wb with
+    | Ok CFull => union_writer cr r all true
+    | Ok CPartial => union_writer cr r false true
+    | Err => union_writer cr r false any
+    | Panic => Panic | OutOfFuel => OutOfFuel
+    end
+  end.
+
+(* non-union writer, union reader *)
+Fixpoint union_reader (cr : schema -> res compat) (l : list schema) (full part : bool) : res compat :=
+  match l with
+  | [] => verdict full part
+  | rb :: r =>
+    match cr rb with
+    | Ok CFull => union_reader cr r true part
+    | Ok CPartial => union_reader cr r full true
+    | Err => union_reader cr r full part
+    | Panic => Panic | OutOfFuel => OutOfFuel
+    end
+  end.
+
+(* every reader field: the writer field of that name (or alias) must be readable; a reader-only field
+   needs a default *)
+Fixpoint record_fields (cr : schema -> schema -> res compat) (wfs : list (fmeta * schema))
+         (l : list (fmeta * schema)) (acc : compat) : res compat :=
+  match l with
+  | [] => Ok acc
+  | (m, rs) :: r =>
+    match wfield_for (f_name m :: f_aliases m) wfs with
+    | Some ws => match cr ws rs with
+                 | Ok c => record_fields cr wfs r (cand acc c)
+                 | Err => Err
+                 | Panic => Panic | OutOfFuel => OutOfFuel
+                 end
+    | None => match f_default m with Some _ => record_fields cr wfs r acc | None => Err end
+    end
+  end.
+
+Definition leaf_compat (W R : schema) : res compat :=
+  if int_like W && (int_like R || long_like R || match R with SFloat | SDouble => true | _ => false end) then Ok CFull
+  else if long_like W && (long_like R || match R with SFloat | SDouble => true | _ => false end) then Ok CFull
+  else if bytes_like W && bytes_like R then Ok CFull
+  else match W, R with
+       | SUuid _, SUuid _ => Ok CFull
+       | _, _ =>
+         match fixed_of W, fixed_of R with
+         | Some wf, Some rf => if fx_size rf =? fx_size wf then Ok CFull else Err
+         | _, _ => Err
+         end
+       end.
+
+Definition name_clash (W R : schema) : bool :=
+  match schema_name W, schema_name R with
+  | Some wn, Some rn => negb (bytes_eqb (nm wn) (nm rn))
+  | _, _ => false
+  end.
+
 Fixpoint can_read (fuel : nat) (W R : schema) {struct fuel} : res compat :=
   match fuel with
   | O => OutOfFuel
   | S f =>
-    let name_clash :=
-      match schema_name W, schema_name R with
-      | Some wn, Some rn => negb (bytes_eqb (nm wn) (nm rn))
-      | _, _ => false
-      end in
-    if name_clash then Err else
+    if name_clash W R then Err else
     match W, R with
     | SRef wn, SRef rn => if name_eqb rn wn then Ok CFull else Err
     | SUnion wbs, SUnion rbs =>
-      (* per writer branch: is there a fully compatible reader branch / any compatible one *)
-      let per (wb : schema) : res (bool * bool) :=
-        (fix scan (l : list schema) (full part : bool) : res (bool * bool) :=
-           match l with
-           | [] => Ok (full, part)
-           | rb :: r =>
-             match can_read f wb rb with
-             | Ok CFull => scan r true part
-             | Ok CPartial => scan r full true
-             | Err => scan r full part
-             | Panic => Panic | OutOfFuel => OutOfFuel
-             end
-           end) rbs false false in
-      (fix go (l : list schema) (all any : bool) : res compat :=
-         match l with
-         | [] => if all then Ok CFull else if any then Ok CPartial else Err
-         | wb :: r => do fp <- per wb; go r (all && fst fp) (any || fst fp || snd fp)
-         end) wbs true false
-    | SUnion wbs, _ =>
-      (fix go (l : list schema) (all any : bool) : res compat :=
-         match l with
-         | [] => if all then Ok CFull else if any then Ok CPartial else Err
-         | wb :: r =>
-           match can_read f wb R with
-           | Ok CFull => go r all true
-           | Ok CPartial => go r false true
-           | Err => go r false any
-           | Panic => Panic | OutOfFuel => OutOfFuel
-           end
-         end) wbs true false
-    | _, SUnion rbs =>
-      (fix scan (l : list schema) (full part : bool) : res compat :=
-         match l with
-         | [] => if full then Ok CFull else if part then Ok CPartial else Err
-         | rb :: r =>
-           match can_read f W rb with
-           | Ok CFull => scan r true part
-           | Ok CPartial => scan r full true
-           | Err => scan r full part
-           | Panic => Panic | OutOfFuel => OutOfFuel
-           end
-         end) rbs false false
+      union_union (fun wb => scan_readers (can_read f wb) rbs false false) wbs true false
+    | SUnion wbs, _ => union_writer (fun wb => can_read f wb R) wbs true false
+    | _, SUnion rbs => union_reader (can_read f W) rbs false false
     | SNull, SNull | SBoolean, SBoolean => Ok CFull
     | SFloat, SFloat | SFloat, SDouble | SDouble, SDouble => Ok CFull
     | SDecimal wp ws _, SDecimal rp rs _ => if (rp =? wp) && (rs =? ws) then Ok CFull else Err
@@ -103,32 +145,8 @@ Fixpoint can_read (fuel : nat) (W R : schema) {struct fuel} : res compat :=
         if forallb (fun b => b) hits then Ok CFull
         else if existsb (fun b => b) hits then Ok CPartial else Err
       end
-    | SRecord _ _ _ wfs _, SRecord _ _ _ rfs _ =>
-      (fix go (l : list (fmeta * schema)) (acc : compat) : res compat :=
-         match l with
-         | [] => Ok acc
-         | (m, rs) :: r =>
-           match wfield_for (f_name m :: f_aliases m) wfs with
-           | Some ws => match can_read f ws rs with
-                        | Ok c => go r (cand acc c)
-                        | Err => Err
-                        | Panic => Panic | OutOfFuel => OutOfFuel
-                        end
-           | None => match f_default m with Some _ => go r acc | None => Err end
-           end
-         end) rfs CFull
-    | _, _ =>
-      if int_like W && (int_like R || long_like R || match R with SFloat | SDouble => true | _ => false end) then Ok CFull
-      else if long_like W && (long_like R || match R with SFloat | SDouble => true | _ => false end) then Ok CFull
-      else if bytes_like W && bytes_like R then Ok CFull
-      else match W, R with
-           | SUuid _, SUuid _ => Ok CFull
-           | _, _ =>
-             match fixed_of W, fixed_of R with
-             | Some wf, Some rf => if fx_size rf =? fx_size wf then Ok CFull else Err
-             | _, _ => Err
-             end
-           end
+    | SRecord _ _ _ wfs _, SRecord _ _ _ rfs _ => record_fields (can_read f) wfs rfs CFull
+    | _, _ => leaf_compat W R
     end
   end.
 
